@@ -120,11 +120,35 @@ class Driver:
             xml, rec = policygen.policy([tuple(c) for c in self.cfg['policy_ctxs']], self.cfg.get('groups_of'))
             kw['policy'] = xml
             self.cfg['policy'] = rec
+        self.actdir = None
+        if self.cfg.get('act'):
+            import tempfile
+            self.actdir = tempfile.mkdtemp(prefix='va-', dir=os.environ.get('VERIF_TMP', '/tmp'))
+            os.chmod(self.actdir, 0o755)
+            os.mkdir(os.path.join(self.actdir, 'services'))
+            os.mkdir(os.path.join(self.actdir, 'ctl'))
+            stub = os.path.join(os.path.dirname(os.path.abspath(build)), 'harness', 'svcstub')
+            for a in self.cfg['act']:
+                ex = {'ok': '%s %s %s' % (stub, os.path.join(self.actdir, 'ctl'), a['n']),
+                      'noexec': '/nonexistent/verif-no-such-program --x',
+                      'badquote': "/bin/true 'unclosed"}[a['kind']]
+                with open(os.path.join(self.actdir, 'services', a['n'] + '.service'), 'w') as f:
+                    f.write('[D-BUS Service]\nName=%s\nExec=%s\n' % (a['n'], ex))
+            kw['servicedirs'] = [os.path.join(self.actdir, 'services')]
+            if 'actTimeoutMs' in self.cfg:
+                limits['service_start_timeout'] = self.cfg['actTimeoutMs']
+            if 'maxPendingAct' in self.cfg:
+                limits['max_pending_service_starts'] = self.cfg['maxPendingAct']
+        self.exited = set()
+        self.atimes = {}
         kw.setdefault('limits', limits)
         self.daemon = Daemon(build, **kw)
         self.lines = [{'e': 'Reset', 'cfg': {k: self.cfg[k] for k in
                                               ('maxNames', 'maxMatch', 'maxReplies', 'maxCompleted', 'maxPerUser',
                                                'busUid', 'policy', 'maxMsgFds', 'maxMsgSize')}}]
+        if self.cfg.get('act'):
+            self.lines[0]['cfg']['act'] = [{'n': B(a['n']), 'kind': a['kind']} for a in self.cfg['act']]
+            self.lines[0]['cfg']['maxPendingAct'] = self.cfg.get('maxPendingAct', 512)
         self.rawobs = bool(self.cfg.get('rawobs'))
         # baseline of the daemon's descriptor table, taken after it has finished its lazy start-up work
         try:
@@ -152,6 +176,8 @@ class Driver:
     def write_op(self, s, op):
         st = self.slots[s]
         k = op['k']
+        if k == 'svc_exit':
+            return self.svc_exit(op)
         if k == 'connect':
             if not st.closed:
                 return None
@@ -207,6 +233,10 @@ class Driver:
         if k == 'ping':
             ser = c.call(BUSNAME, BUSPATH, 'org.freedesktop.DBus.Peer', 'Ping')
             return {'k': 'ping', 'ser': ser}
+        if k == 'startsvc':
+            ser = c.bus_call('StartServiceByName', 'su', (_txt(op['n']), op.get('flags', 0)), flags=fl)
+            self.noexec_wait = self.noexec_wait or self.act_kind(op['n']) == 'noexec'
+            return {'k': 'startsvc', 'ser': ser, 'fl': fl, 'n': B(_txt(op['n'])), 'flags': op.get('flags', 0), '_': str(op['n'])}
         if k in ('addmatch', 'rmmatch'):
             r = _txt(self.resolve(op['rule']))
             ser = c.bus_call('AddMatch' if k == 'addmatch' else 'RemoveMatch', 's', (r,), flags=fl)
@@ -277,6 +307,8 @@ class Driver:
             raw.append((code, vs, _body(vs, [vv])[0]))
         ser = op.get('ser') or c.next_serial()
         fl = op.get('fl', 0)
+        if self.act_kind(op.get('dst')) == 'noexec':
+            self.noexec_wait = True
         nattach = op.get('fds', 0)
         nfd = op.get('nfd', nattach)
         fds, toks = self.new_files(nattach)
@@ -374,6 +406,7 @@ class Driver:
         became = {}
         eof_early = []
         self.stall = []
+        self.noexec_wait = False
         t_start = time.monotonic()
         nfd_before = self.daemon.nfds()
         # unauthenticated strangers: junk, half handshakes, connect-and-go (no part of the bus state)
@@ -443,6 +476,8 @@ class Driver:
             while time.time() - t0 < 1.0 and self.daemon.nfds() > nfd_before - len(closing) + \
                     sum(1 for s in rec_ops for o in rec_ops[s] if o['k'] == 'connect'):
                 time.sleep(0.002)
+        if self.noexec_wait:
+            time.sleep(0.25)      # a start that cannot succeed (no such program) has failed by now
         # phase 2: closing barrier
         sync = []
         for s in sorted(self.slots):
@@ -483,12 +518,75 @@ class Driver:
         self.times[len(self.lines) + 1] = (t_start, t_end)
         if T is not None and t_end - t_start >= T / 1000.0:
             exp_may = max(exp_may, len(self.lines) + 1)     # the round itself lasted longer than the timeout
-        line = {'e': 'Round', 'expMay': exp_may, 'expMust': exp_must, 'ops': [rec_ops[s] for s in sorted(self.slots)], 'sync': sync,
+        A = self.cfg.get('actTimeoutMs')
+        act_may, act_must = 0, 0
+        if A is not None and self.actdir:
+            for idx, (ts, te) in self.times.items():
+                if t_end - ts >= A / 1000.0:
+                    act_may = max(act_may, idx)
+                if t_start - te >= 3 * A / 1000.0 + 2.0:
+                    act_must = max(act_must, idx)
+            if t_end - t_start >= A / 1000.0:
+                act_may = max(act_may, len(self.lines) + 1)
+        line = {'e': 'Round', 'actMay': act_may, 'actMust': act_must, 'starts': self.daemon_starts(), 'expMay': exp_may, 'expMust': exp_must, 'ops': [rec_ops[s] for s in sorted(self.slots)], 'sync': sync,
                 'obs': [obs[s] for s in sorted(self.slots)], 'eof': eof, 'stall': self.stall}
         if pre:
             line['pre'] = pre
         self.lines.append(line)
         return line
+
+    # -- activation
+    def act_kind(self, n):
+        for a in self.cfg.get('act') or []:
+            if a['n'] == n:
+                return a['kind']
+        return None
+
+    def stub_starts(self):
+        """(name, pid) of every stub process that has reported in"""
+        try:
+            return [(ln.split()[0], int(ln.split()[1])) for ln in open(os.path.join(self.actdir, 'ctl', 'starts.log')) if ln.strip()]
+        except OSError:
+            return []
+
+    def svc_exit(self, op):
+        """make the process the bus started for op['n'] end (status / signal); None if there is none running"""
+        if not self.actdir:
+            return None
+        # the process in question is the one the daemon started last for this name: wait for it to report in
+        t0 = time.time()
+        said = sum(d['k'] for d in self.daemon_starts() if d['n'] == B(op['n']))
+        mine = []
+        while time.time() - t0 < 0.6:
+            mine = [p for n, p in self.stub_starts() if n == op['n']]
+            if len(mine) >= said:
+                break
+            time.sleep(0.01)
+        pid = mine[-1] if mine and len(mine) >= said else None
+        if pid is not None and (pid in self.exited or not os.path.exists('/proc/%d' % pid)):
+            pid = None
+        if pid is None:
+            return None
+        self.exited.add(pid)
+        ctl = os.path.join(self.actdir, 'ctl')
+        with open(os.path.join(ctl, 'cmd.tmp'), 'w') as f:
+            f.write('%s %d\n' % ('kill' if op.get('signaled') else 'exit', op.get('status', 0)))
+        os.rename(os.path.join(ctl, 'cmd.tmp'), os.path.join(ctl, 'cmd.%d' % pid))
+        t0 = time.time()
+        while time.time() - t0 < 2.0 and os.path.exists('/proc/%d' % pid):
+            time.sleep(0.003)
+        time.sleep(0.06)       # the babysitter's report reaches the daemon
+        return {'k': 'svc_exit', 'n': B(op['n']), 'status': op.get('status', 0), 'signaled': bool(op.get('signaled'))}
+
+    def daemon_starts(self):
+        """how often the daemon says it started a process for each activatable name"""
+        if not self.actdir:
+            return []
+        try:
+            log = open(self.daemon.errlog, errors='replace').read()
+        except OSError:
+            log = ''
+        return [{'n': B(a['n']), 'k': log.count("Activating service name='%s' requested" % a['n'])} for a in self.cfg['act']]
 
     def strangers(self, acts):
         """connections that never authenticate: {'n': count, 'bytes': hex, 'keep': bool}"""
@@ -551,8 +649,30 @@ class Driver:
             t0 = time.time()
             while time.time() - t0 < 3.0 and self.daemon.nfds() != self.base_fds:
                 time.sleep(0.01)
-            self.lines.append({'e': 'Final', 'fdleak': self.daemon.nfds() - self.base_fds})
+            fin = {'e': 'Final', 'fdleak': self.daemon.nfds() - self.base_fds, 'stublog': []}
+            if self.actdir:
+                t0 = time.time()
+                want = {bytes(d['n']).decode(): d['k'] for d in self.daemon_starts()}
+                while time.time() - t0 < 0.6:
+                    st = self.stub_starts()
+                    if all(sum(1 for n, _p in st if n == a['n']) >= want.get(a['n'], 0) for a in self.cfg['act'] if a['kind'] == 'ok'):
+                        break
+                    time.sleep(0.02)
+                time.sleep(0.05)
+                st = self.stub_starts()
+                fin['stublog'] = [{'n': B(a['n']), 'k': sum(1 for n, _p in st if n == a['n'])} for a in self.cfg['act']
+                                  if a['kind'] == 'ok']
+                open(os.path.join(self.actdir, 'ctl', 'stopall'), 'w').close()
+            self.lines.append(fin)
         res = self.daemon.stop()
+        if self.actdir:
+            try:
+                open(os.path.join(self.actdir, 'ctl', 'stopall'), 'w').close()
+            except OSError:
+                pass
+            time.sleep(0.02)
+            import shutil
+            shutil.rmtree(self.actdir, ignore_errors=True)
         if res['crashed']:
             self.lines.append({'e': 'Crash', 'rc': res['rc'], 'report': res['report']})
         return res
